@@ -95,6 +95,9 @@ def jobs(tier, seed):
             cfgs = [dict(lazy=l, cache=c) for l in (True, False) for c in (True, False)]
         for cfg in cfgs:
             js.append(dict(name="c16_" + name, scen=scen, cfg=cfg, budget=1, max_exec=3000))
+        # no gates at all: a step() that makes no request returns without yielding anything
+        js.append(dict(name="c16_" + name, scen=dict(scen), cfg=dict(lazy=True, cache=True, gates=[]),
+                       budget=0, max_exec=10))
         if "persistent_same_attr" in name:
             for cfg in (dict(lazy=True, cache=False), dict(lazy=False, cache=True)):
                 js.append(dict(name="c16_" + name, scen=scen, cfg=cfg, budget=1, max_exec=3000))
